@@ -6,10 +6,19 @@
 (*                                                                         *)
 (* The specification does not re-model the SDK's staking validity rules:    *)
 (* the native message executed on a fork of the same real state IS the       *)
-(* reference.  What the specification contributes is (i) the case space -    *)
-(* state kind x method x validator class x amount class - enumerated         *)
-(* exhaustively by TLC and (ii) the comparator and classification below,     *)
-(* evaluated by TLC on every recorded pair of executions.                    *)
+(* reference.  What the specification contributes is                        *)
+(*  (i)   the case space - state kind x method x ARGUMENT VECTOR (every      *)
+(*        argument of the method is a dimension: validator class, amount     *)
+(*        class, creation height, destination validator, and for ICS-20 the  *)
+(*        two timeouts, memo, receiver, port/channel and denomination) -     *)
+(*        enumerated exhaustively by TLC;                                    *)
+(*  (ii)  the space of page requests of the paginated read-only methods      *)
+(*        (selector x limit x countTotal x reverse x continuation by key or   *)
+(*        by offset): P for a read-only method is stated on the PROTOCOL,     *)
+(*        not on one answer - every page of the walk that follows the        *)
+(*        precompile's own continuation equals the page of the native walk;  *)
+(*  (iii) the comparator and classification below, evaluated by TLC on       *)
+(*        every recorded pair of executions.                                 *)
 (***************************************************************************)
 EXTENDS Integers, Sequences, FiniteSets, TLC, Json
 
@@ -20,28 +29,81 @@ vars == <<picked>>
 \* (a registered coin/token pair) and an unregistered denomination
 \* "operatorWd": a validator operator whose withdraw address is another account; "vesting": S is a clawback vesting
 \* account (unvested coins on top of its free balance)
-States  == {"base", "wdOther", "noDeleg", "operator", "slashed", "operatorWd", "vesting"}
+\* Validator life cycle (the target validator V2 is not an ordinary bonded validator with tokens):
+\*   "v2Empty"        every delegation to V2 was withdrawn: 0 tokens, 0 shares, UNBONDING (still in the store)
+\*   "v2EmptyBonded"  the same within the block in which the last delegation left (V2 still BONDED)
+\*   "v2Jailed"       V2 was jailed for downtime (slashed, UNBONDING, jailed), S still delegates to it
+\*   "v2Unbonding"    V2 fell out of the active set (three stronger validators were created): UNBONDING, not jailed
+\*   "v2Unbonded"     the same after the unbonding period: UNBONDED
+\* "rich": S has redelegations between several pairs (one pair with two entries), T has one from the same source,
+\*   V2 was slashed twice (downtime, then double sign), S holds IBC vouchers (one received over channel-0, one over
+\*   another channel) - the state in which every paginated query has several pages
+BaseStates == {"base", "wdOther", "noDeleg", "operator", "slashed", "operatorWd", "vesting"}
+ValStates  == {"v2Empty", "v2EmptyBonded", "v2Jailed", "v2Unbonding", "v2Unbonded"}
+States  == BaseStates \cup ValStates \cup {"rich"}
 ValsC   == {"V1", "V2", "unknown", "badbech32"}
 SpendAmts == {"0", "1", "small", "eqDeleg", "gtDeleg", "eqBal", "gtBal", "2^255", "max"}
 
-Case(st, m, v, a, h) == [state |-> st, m |-> m, val |-> v, amt |-> a, height |-> h, to |-> "T"]
+\* ICS-20 transfer arguments.  Timeouts: a packet carries a timeout height AND a timeout timestamp, each may be
+\* absent (0), in the future or already elapsed on the receiving side; ibc-go checks them independently.
+Timeouts == {"none", "height", "heightPast", "ts", "tsPast", "both", "bothTsPast", "bothHeightPast"}
+Memos    == {"none", "text"}
+Rcvs     == {"ok", "empty", "long"}
+\* "ok" transfer/channel-0, "chan1" the other open channel, "noChannel" a channel that does not exist, "noPort" a port
+\* that does not exist, "badId" a malformed channel identifier
+Chans    == {"ok", "chan1", "noChannel", "noPort", "badId"}
+\* "native" the staking denomination, "other" another denomination S holds, "unheld" a denomination S does not hold,
+\* "voucher" an IBC voucher that came in over the same channel (burned on the way back), "voucherFwd" a voucher that came
+\* in over another channel (escrowed), "invalid" a malformed denomination
+Denoms   == {"native", "other", "unheld", "voucher", "voucherFwd", "invalid"}
+\* redelegate: destination validator
+Dsts     == {"V3", "same", "V1", "unknown", "badbech32"}
+
+Case(st, m, v, a, h) == [state |-> st, m |-> m, val |-> v, amt |-> a, height |-> h, to |-> "T", dst |-> "V3",
+                         tmo |-> "height", memo |-> "none", rcv |-> "ok", chan |-> "ok", denom |-> "native"]
+Ics(st, a, t, me, r, ch, d) == [Case(st, "ibcTransfer", "V1", a, "ok") EXCEPT !.tmo = t, !.memo = me, !.rcv = r, !.chan = ch, !.denom = d]
 
 Cases ==
     {Case(st, m, v, a, "ok") : st \in States \ {"operator", "operatorWd", "vesting"}, m \in {"delegate", "undelegate", "redelegate"}, v \in ValsC, a \in SpendAmts}
     \* a vesting account may bond its free and vested coins only: amounts around that bound, by delegation and by creating a validator
     \cup {Case("vesting", m, "V1", a, "ok") : m \in {"delegate", "createValidator"}, a \in {"1", "small", "eqFree", "gtFree", "eqBal", "gtBal"}}
     \cup {Case(st, "createValidator", "V1", a, "ok") : st \in {"base", "noDeleg", "operator"}, a \in {"0", "1", "small", "eqBal", "gtBal", "2^255"}}
-    \cup {Case(st, "cancelUnbonding", v, a, h) : st \in {"base", "wdOther", "slashed"}, v \in {"V1", "V2", "unknown"},
+    \cup {Case(st, "cancelUnbonding", v, a, h) : st \in {"base", "wdOther", "slashed", "v2Jailed", "v2Unbonding", "rich"}, v \in {"V1", "V2", "unknown"},
                                                   a \in {"0", "1", "ubd", "small", "2^255"}, h \in {"ok", "wrong"}}
     \cup {Case(st, "withdrawRewards", v, "0", "ok") : st \in States, v \in ValsC}
-    \cup {Case(st, "ibcTransfer", "V1", a, "ok") : st \in {"base", "wdOther", "slashed"}, a \in {"0", "1", "small", "eqBal", "gtBal", "2^255"}}
+    \* ICS-20: every amount class with every combination of the two timeouts ...
+    \cup {Ics(st, a, t, "none", "ok", "ok", "native") : st \in {"base", "wdOther", "slashed"}, a \in {"0", "1", "small", "eqBal", "gtBal", "2^255"}, t \in Timeouts}
+    \* ... and the full product of the remaining arguments with the timeouts that matter, in the state that holds every denomination
+    \cup {Ics("rich", a, t, me, r, ch, d) : a \in {"small", "eqBal", "gtBal"}, t \in {"height", "ts", "both", "bothTsPast", "bothHeightPast"},
+                                            me \in Memos, r \in Rcvs, ch \in Chans, d \in Denoms}
     \cup {Case(st, m, "V1", "0", "ok") : st \in States, m \in {"claimRewards", "setWithdrawAddress", "withdrawCommission"}}
     \* resetting the withdraw address to the delegator itself
     \cup {[Case(st, "setWithdrawAddress", "V1", "0", "ok") EXCEPT !.to = "self"] : st \in States}
+    \* redelegate: the destination is an argument too
+    \cup {[Case(st, "redelegate", v, a, "ok") EXCEPT !.dst = d] : st \in {"base", "v2Empty", "v2Jailed", "v2Unbonding", "v2Unbonded", "rich"}, v \in {"V1", "V2"},
+                                                                   a \in {"small", "eqDeleg"}, d \in Dsts}
+
+---------------------------------------------------------------------------
+(* paginated read-only methods: the space of walks *)
+\* A walk asks for the first page with (limit, countTotal, reverse) and then either follows the continuation key
+\* the callee returned until none is returned ("key"), or advances the offset by the limit until a page comes back
+\* empty ("offset").  limit "0" is the default page size.  Selectors:
+\*   validators:        the status filter
+\*   redelegations:     by delegator / by source validator / delegator and source / one exact pair / nothing (invalid)
+\*   validatorSlashes:  the validator (all heights) - the one paginated method of the distribution precompile
+Walk(q, sel, lim, ct, rev, mode) == [q |-> q, sel |-> sel, limit |-> lim, countTotal |-> ct, reverse |-> rev, mode |-> mode]
+Selectors == [validators       |-> {"all", "BOND_STATUS_BONDED", "BOND_STATUS_UNBONDING", "BOND_STATUS_UNBONDED", "bogus"},
+              redelegations    |-> {"del", "src:V1", "src:V2", "delSrc:V1", "exact:V1>V3", "none"},
+              validatorSlashes |-> {"V1", "V2", "unknown"}]
+Paginated == DOMAIN Selectors
+AllSelectors == UNION {Selectors[x] : x \in Paginated}
+Walks == {w \in [q : Paginated, sel : AllSelectors, limit : {"0", "1", "2"}, countTotal : BOOLEAN, reverse : BOOLEAN, mode : {"key", "offset"}] :
+            w.sel \in Selectors[w.q] /\ (w.limit = "0" => w.mode = "key")}
 
 None == [tag |-> "none"]
 Init == picked = None
-Next == picked = None /\ \E c \in Cases : picked' = [tag |-> "case", c |-> c] /\ PrintT(<<"SCRIPT", ToJson(c)>>)
+Next == picked = None /\ (\/ \E c \in Cases : picked' = [tag |-> "case", c |-> c] /\ PrintT(<<"SCRIPT", ToJson(c)>>)
+                          \/ \E w \in Walks : picked' = [tag |-> "walk", w |-> w] /\ PrintT(<<"WALK", ToJson(w)>>))
 Spec == Init /\ [][Next]_vars
 
 \* sanity of the case space itself (checked exhaustively): every method of the statement occurs
@@ -49,16 +111,53 @@ Spec == Init /\ [][Next]_vars
 Methods == {"delegate", "undelegate", "redelegate", "cancelUnbonding", "withdrawRewards", "claimRewards", "setWithdrawAddress", "withdrawCommission", "ibcTransfer", "createValidator"}
 ASSUME \A m \in Methods : \E c \in Cases : c.m = m
 ASSUME \A m \in {"delegate", "undelegate", "redelegate"} : \A a \in SpendAmts, v \in ValsC : \E c \in Cases : c.m = m /\ c.amt = a /\ c.val = v
+\* every state-changing staking method meets every kind of validator
+ASSUME \A m \in {"delegate", "undelegate", "redelegate"}, st \in ValStates : \E c \in Cases : c.m = m /\ c.state = st /\ c.val = "V2"
+\* every value of every ICS-20 argument occurs, and every pair of values of two different arguments occurs together
+IcsArgs == [tmo |-> Timeouts \ {"none", "heightPast", "tsPast"}, memo |-> Memos, rcv |-> Rcvs, chan |-> Chans, denom |-> Denoms]
+ASSUME \A t \in Timeouts : \E c \in Cases : c.m = "ibcTransfer" /\ c.tmo = t
+ASSUME \A f \in DOMAIN IcsArgs, g \in DOMAIN IcsArgs : \A x \in IcsArgs[f], y \in IcsArgs[g] :
+          f = g \/ \E c \in Cases : c.m = "ibcTransfer" /\ c[f] = x /\ c[g] = y
+\* every paginated method is walked with every limit, with and without countTotal, forwards and backwards, by key
+ASSUME \A q \in Paginated, lim \in {"0", "1", "2"}, ct \in BOOLEAN, rev \in BOOLEAN :
+          \E w \in Walks : w.q = q /\ w.limit = lim /\ w.countTotal = ct /\ w.reverse = rev /\ w.mode = "key"
 
 ---------------------------------------------------------------------------
 (* comparator *)
 \* the fields of the projected state the statement lists (balances apart from gas: the
 \* precompile is executed with a zero gas price, so balances are compared exactly)
-Compared == {"bank", "mods", "supply", "deleg", "ubd", "rewards", "wd", "commission", "grants"}
+\*   denoms: balances of the accounts and of the escrow accounts in every other denomination, and their supplies
+\*   red:    the redelegations of the accounts;  vals: tokens, shares, status, jailed of every validator
+\*   ibc:    next send sequence and the commitment of the last packet sent, per channel
+Compared == {"bank", "mods", "supply", "deleg", "ubd", "rewards", "wd", "commission", "grants", "denoms", "red", "vals", "ibc"}
 DiffFields(a, b) == {f \in Compared : a[f] # b[f]}
-FieldOrder == <<"deleg", "ubd", "wd", "rewards", "commission", "grants", "supply", "bank", "mods">>
+FieldOrder == <<"deleg", "ubd", "wd", "rewards", "commission", "grants", "supply", "bank", "mods", "red", "vals", "denoms", "ibc">>
 FirstField(diff) == LET idx == {i \in 1..Len(FieldOrder) : FieldOrder[i] \in diff} IN
                     IF idx = {} THEN "other" ELSE FieldOrder[CHOOSE i \in idx : \A j \in idx : i <= j]
+Opt(name, v, dflt) == IF v = dflt THEN "" ELSE "," \o name \o "=" \o v
 CaseClass(c) == c.m \o "|state=" \o c.state \o ",val=" \o c.val \o ",amt=" \o c.amt \o (IF c.m = "cancelUnbonding" THEN ",height=" \o c.height ELSE "")
                     \o (IF c.m = "setWithdrawAddress" /\ c.to # "T" THEN ",to=" \o c.to ELSE "")
+                    \o (IF c.m = "redelegate" THEN Opt("dst", c.dst, "V3") ELSE "")
+                    \o (IF c.m = "ibcTransfer" THEN Opt("tmo", c.tmo, "height") \o Opt("memo", c.memo, "none") \o Opt("rcv", c.rcv, "ok")
+                                                     \o Opt("chan", c.chan, "ok") \o Opt("denom", c.denom, "native") ELSE "")
+
+\* walks: a and b are the sequences of pages [items, next, total, err] of the native and of the precompile walk.
+\* WalkDiff names the first divergence: which page (the first one, or a later one - i.e. one that was asked for with a
+\* continuation) and what about it (the call fails on one side only / items / continuation key / total); "pages" when
+\* one walk is a proper prefix of the other.
+Min(S) == CHOOSE i \in S : \A j \in S : i <= j
+PageNo(i) == IF i = 1 THEN "first" ELSE "later"
+WalkDiff(a, b) ==
+    LET n == IF Len(a) < Len(b) THEN Len(a) ELSE Len(b)
+        idx == {i \in 1..n : a[i] # b[i]} IN
+    IF idx = {} THEN [kind |-> "pages", page |-> "later", fails |-> "-"]
+    ELSE LET i == Min(idx) IN
+         IF a[i].err # b[i].err THEN [kind |-> "error", page |-> PageNo(i), fails |-> IF b[i].err # "" THEN "precompile" ELSE "native"]
+         ELSE [kind |-> IF a[i].items # b[i].items THEN "items" ELSE IF a[i].next # b[i].next THEN "nextKey" ELSE "total", page |-> PageNo(i), fails |-> "-"]
+BoolStr(b) == IF b THEN "T" ELSE "F"
+\* what identifies a divergence: for a call that fails on one side only, the protocol step (continuation mode, first or
+\* later page) and the side; for a divergence in content, the whole page request
+WalkClass(w, d) == IF d.kind = "error" THEN "mode=" \o w.mode \o ",page=" \o d.page \o ",fails=" \o d.fails
+                   ELSE "sel=" \o w.sel \o ",limit=" \o w.limit \o ",countTotal=" \o BoolStr(w.countTotal)
+                        \o ",reverse=" \o BoolStr(w.reverse) \o ",mode=" \o w.mode \o ",page=" \o d.page
 =============================================================================
